@@ -2,6 +2,7 @@
 // args: <grid spec> <script> [param]
 // scripts: load | reload | refine (param: classic|parents|direction|fds|stable|aniso|surplus) | construct (param: batch size) | construct1
 //          reupdate: load, updateGrid with the anisotropic weights reversed (the new selection is not a superset of the old one), load, updateGrid(depth+1, original weights), load
+//          sym (param: number of steps): after the load, every step is chosen by the solver (see solverChosenHistory in tgrid.hpp); reproduction is checked after each step
 //          mixed (param: batch size): load, refinement left pending, construction, finish, load whatever is needed, refine, load
 #include "tgrid.hpp"
 #include <algorithm>
@@ -26,7 +27,7 @@ static void check_reproduction(const TasmanianSparseGrid &grid, SymModel &model,
       fpsym_eq(yf[k], want[k], scale, l3.c_str());
     }
   }
-  fpsym_nonconst(yb[0], "witness: surrogate value at a loaded point depends on the supplied values");
+  if (!model.zeroed) fpsym_nonconst(yb[0], "witness: surrogate value at a loaded point depends on the supplied values");   // (after a merge all values are the constant zero)
 }
 
 int main(int argc, char **argv){
@@ -38,7 +39,7 @@ int main(int argc, char **argv){
     if (grid.isLocalPolynomial() || grid.isWavelet()) grid.setSurplusRefinement(tol, refine_classic, -1, g.ll);
     else if (grid.isFourier() || round % 2 == 0 || !OneDimensionalMeta::isSequence(grid.getRule())) grid.setAnisotropicRefinement(type_iptotal, 1 + round, 0, g.ll);
     else grid.setSurplusRefinement(tol, 0, g.ll); };
-  if (script == "load" || script == "reload" || script == "refine" || script == "mixed" || script == "reupdate"){
+  if (script == "load" || script == "reload" || script == "refine" || script == "mixed" || script == "reupdate" || script == "sym"){
     grid.loadNeededValues(model.values(grid.getNeededPoints(), d));
     check_reproduction(grid, model, "after load");
   }
@@ -72,6 +73,12 @@ int main(int argc, char **argv){
       if (grid.getNumNeeded() > 0) grid.loadNeededValues(model.values(grid.getNeededPoints(), d));
       check_reproduction(grid, model, round == 0 ? "after an update with reversed anisotropic weights + load" : "after a second update (depth+1, original weights) + load");
     }
+  }
+  if (script == "sym"){
+    int nsteps = atoi(param.c_str()); if (nsteps <= 0) nsteps = 3;
+    for (int i=0;i<nsteps;i++){ solverChosenHistory(grid, g, model, 1, 70 + i); check_reproduction(grid, model, ("after solver-chosen step " + std::to_string(i)).c_str()); }
+    if (grid.isUsingConstruction()){ grid.finishConstruction(); check_reproduction(grid, model, "after finishConstruction"); }
+    if (grid.getNumNeeded() > 0){ grid.loadNeededValues(model.values(grid.getNeededPoints(), d)); check_reproduction(grid, model, "after the final load of the needed points"); }
   }
   if (script == "mixed"){ refine_once(fpsym_symbolic(0.05, 5, 0.0, 0.6), 0); fpsym_note("pending_before_construction", grid.getNumNeeded()); }   // left pending
   if (script == "construct" || script == "construct1" || script == "mixed"){
